@@ -611,6 +611,11 @@ def do_check(cid, tier, seed):
         print("KNOWN-FINDING: property=%s %s [%s, hit %d times]" % (cid, k["what"], kid, cnt))
     # a violation that passed both gates decides the exit status (1); gate failures alone mean harness trouble (2)
     if reported: rc = 1
+    # self-check of reach: only meaningful for a complete clean run at the registered size
+    if rc == 0 and "VERIF_RUNS" not in os.environ:
+        dead = [k for k in meta.REQUIRED.get(cid, []) if not stats.get(k)]
+        if dead:
+            print("HARNESS-ERROR reach probe(s) stuck at zero, the corresponding sweep did not run: " + ", ".join(dead)); rc = 2
     wall = time.time() - t0
     runs = stats.get("runs", 0)
     coverage = meta.coverage(cid, stats, distinct, samples, runs, wall, total_all)
